@@ -34,6 +34,25 @@ partial def valOf : Sexp → Option XVal
       let n ← name.str?
       let ps' ← ps.mapM valOf
       pure (.typ n.toList ps')
+  | .list [.atom "l", src, name, r] => do
+      let _ ← src.str?
+      let n ← name.str?
+      let r' ← valOf r
+      pure (.talias n.toList r')
+  | .list (.atom "q" :: src :: name :: es) => do
+      let _ ← src.str?
+      let n ← name.str?
+      -- the init hash as basicTypeToString switches on it: `attributes` / `functions` hold members
+      let es' ← es.mapM fun (e : Sexp) => match e with
+        | Sexp.list [k, v] => do
+            let k' ← k.str?
+            match isMemberKey k'.toList, valOf v with
+            | true, some (XVal.hash ms) => pure (OEntry.members k'.toList ms)
+            | true, _ => none
+            | false, some v' => pure (OEntry.plain k'.toList v')
+            | false, none => none
+        | _ => none
+      pure (.otype n.toList es')
   | .list (.atom "o" :: name :: es) => do
       let n ← name.str?
       let es' ← es.mapM fun (e : Sexp) => match e with
@@ -103,7 +122,7 @@ def execFmt (io : FloatIO) (ctx ve : Sexp) : String :=
         (match d.str? with
          | none => "bad-op"
          | some d =>
-           if v.isContainer then "out-of-model"   -- which children the value's own type accepts is a lattice question
+           if v.isContainer || v.kind == .talias || v.kind == .otype then "out-of-model"   -- which children the value's own type accepts is a lattice question
            else match newFormat d.toList with
              | .error c => "reported " ++ codeStr c
              -- the value's own type accepts the value and nothing that is formatted below it (the parameters of a Type are
